@@ -18,7 +18,7 @@ Ltac simp_ids :=
        trole pend held exec tpc pcstk lwd owed credit ringCount
        with_pend with_held with_exec with_pc with_pcstk with_lwd with_owed with_credit with_ringCount with_role] in *.
 Ltac rw_eqs := repeat match goal with H : ?x = _ |- context[?x] => rewrite H end.
-Ltac split_kinds := repeat match goal with |- context[match ?k with KInline => _ | KLocal => _ | KExec => _ | KDrain => _ end] => destruct k end.
+Ltac split_kinds := repeat match goal with |- context[match ?k with KInline => _ | KLocal => _ | KExec => _ end] => destruct k end.
 Ltac pose_cnt t :=
   repeat match goal with
   | |- context[firstn ?n ?l] => lazymatch goal with H : cnt t (firstn n l) + _ = _ |- _ => fail | _ => pose proof (cnt_firstn_skipn t n l) end
@@ -212,7 +212,6 @@ Section C01.
     - rewrite nth_overflow by assumption. reflexivity.
   Qed.
 
-  Definition is_gen (e : event) : bool := match e with EGen _ => true | _ => false end.
 
   (* a thread with nothing pending cannot place anything; its pending list stays empty unless it generates *)
   Lemma accept_pend_empty s u e s' : is_gen e = false -> pend (getT s u) = [] -> accept s u e = Some s' ->
@@ -259,34 +258,58 @@ Section C01.
     all: repeat match goal with H : _ = [] |- _ => rewrite H end; match goal with H : held _ = None |- _ => rewrite H end; reflexivity.
   Qed.
 
+  Definition phase_ok (ph : phase) : bool := pre_drain ph || late ph.
+
   Lemma accept_dtor_owner s d n ph e s' : rz s = RActive d true n ph -> is_dtor_end e = false -> accept s d e = Some s' ->
     exists ph', rz s' = RActive d true n ph' /\ (joined ph = true -> joined ph' = true) /\
-                (joined ph = false -> joined ph' = true -> nworkers s' = 0).
+                (joined ph = false -> joined ph' = true -> nworkers s' = 0) /\
+                (phase_ok ph = true -> phase_ok ph' = true) /\ (late ph = true -> late ph' = true) /\
+                (late ph = false -> late ph' = true -> pend (getT s' d) = [] /\ joined ph = true).
   Proof.
     intros Hrz Hde H. unfold accept, accept_rz in H. rewrite Hrz in H.
     set (th := getT s d) in *.
     destruct (trole th) eqn:Hrole; try discriminate H.
     all: destruct e; try discriminate Hde; cbn [is_rz_event] in H; inv_guards H; try subst s'; simp_proj; rewrite ?Hrz.
-    all: try (eexists; split; [reflexivity|]; split; [tauto | intros A B; rewrite A in B; discriminate B]).
+    all: try (eexists; split; [reflexivity|]; repeat split; first [tauto | intros; congruence]).
     all: unfold after_ring, after_steal; unfold ring_phase; unfold steal_phase.
     all: repeat match goal with |- context[if ?b then _ else _] => destruct b end.
-    all: eexists; split; [reflexivity|]; cbn [joined]; split; intros; try reflexivity; try discriminate; try assumption; bool_hyps; try assumption.
+    all: eexists; split; [reflexivity|]; cbn [joined phase_ok pre_drain late orb]; repeat split; intros; try reflexivity; try discriminate; try assumption.
+    all: bool_hyps; try assumption; try discriminate.
   Qed.
+
+  Lemma stale_open_pre s d n ph a e : rz s = RActive d true n ph -> pre_drain ph = true -> stale_place share s a e = 0.
+  Proof.
+    intros Hrz Hp.
+    assert (forall r, PoolModel.ring_open s r = true) as Ho1
+      by (intros r; unfold PoolModel.ring_open, ring_drain_pending; rewrite Hrz, Hp; cbn [orb]; apply orb_true_r).
+    assert (forall r, PoolModel.steal_open share s r = true) as Ho2
+      by (intros r; unfold PoolModel.steal_open, steal_drain_pending; rewrite Hrz, Hp; cbn [orb]; apply orb_true_r).
+    assert (central_open s = true) as Ho3 by (unfold central_open; rewrite Hrz; exact Hp).
+    unfold PoolModel.stale_place. destruct e; try reflexivity; rewrite ?Ho1, ?Ho2, ?Ho3; try reflexivity.
+    - destruct (pc_eqb _ _); reflexivity.
+    - rewrite andb_false_r. reflexivity.
+    - destruct ok; reflexivity.
+  Qed.
+
+  Lemma th_ids_nil_pend th : th_ids th = [] -> pend th = [].
+  Proof. unfold th_ids. intros H. apply app_eq_nil in H. tauto. Qed.
 
   Definition joinedb (r : rzs) : bool := match r with RActive _ _ _ ph => joined ph | RDead => true | RIdle => false end.
 
   (* the documented contract of ~ThreadPool, as predicates on the state in which the destructor starts and on the events after it:
-     no submission is in progress, threads other than the destructor's and the pool's own workers are not inside the pool and
-     make no call while the destructor runs, and nothing new is submitted *)
+     no submission is in progress, and threads other than the destructor's and the pool's own workers are not inside the pool and
+     make no call while the destructor runs ("illegal to call the destructor while any OTHER thread makes calls to the pool").
+     Tasks that the destructor or the workers run may submit more work; the only exclusion is [late_gen]: a task generated after the
+     destructor's last central-queue drain (the known finding dtor-drain-task-reschedules). *)
   Definition quiet (s1 : state) (d : nat) : Prop :=
     (forall u, pend (getT s1 u) = []) /\
     (forall u, u <> d -> is_worker (getT s1 u) = 0 -> th_ids (getT s1 u) = []).
   Definition contract_event (s1 : state) (d : nat) (ae : nat * event) : Prop :=
-    is_gen (snd ae) = false /\ is_dtor_end (snd ae) = false /\ (fst ae = d \/ is_worker (getT s1 (fst ae)) = 1).
+    is_dtor_end (snd ae) = false /\ (fst ae = d \/ is_worker (getT s1 (fst ae)) = 1).
 
   Record J (s1 : state) (d : nat) (s : state) : Prop := {
-    Jrz : exists n ph, rz s = RActive d true n ph;
-    Jpend : forall u, pend (getT s u) = [];
+    Jrz : exists n ph, rz s = RActive d true n ph /\ phase_ok ph = true;
+    Jpend : late_state s = true -> forall u, pend (getT s u) = [];
     Jcov : CovP share s;
     Jw : nworkers s = wcount s;
     Jk1 : forall u, u <> d -> is_worker (getT s1 u) = 0 -> getT s u = getT s1 u;
@@ -297,19 +320,36 @@ Section C01.
   Lemma is_worker_cases th : (is_worker th = 1 /\ exists i, trole th = RWorker i) \/ (is_worker th = 0 /\ forall i, trole th <> RWorker i).
   Proof. unfold is_worker. destruct (trole th); [right | left | right]; split; eauto; try discriminate; try reflexivity. Qed.
 
-  Lemma J_step s1 d s a e s' : J s1 d s -> contract_event s1 d (a, e) -> accept s a e = Some s' -> J s1 d s'.
+  Lemma J_step s1 d s a e s' : (forall u, pend (getT s1 u) = []) ->
+    J s1 d s -> contract_event s1 d (a, e) -> is_gen e && late_state s = false -> accept s a e = Some s' -> J s1 d s'.
   Proof.
-    intros [[n [ph Hrz]] Hp Hc Hw K1 K2] (Hg & Hde & Ha) H. cbn [fst snd] in *.
-    destruct (accept_pend_empty _ _ _ _ Hg (Hp a) H) as [Hp' Hst].
+    intros Qp [[n [ph [Hrz Hok]]] Hp Hc Hw K1 K2] (Hde & Ha) Hlg H. cbn [fst snd] in *.
+    assert (late_state s = late ph) as Hls by (unfold late_state; rewrite Hrz; reflexivity).
+    assert (stale_place share s a e = 0 /\ (late ph = true -> pend (getT s' a) = [])) as [Hst Hp'].
+    { destruct (late ph) eqn:El.
+      - rewrite Hls in Hlg. rewrite andb_true_r in Hlg. rewrite Hls in Hp. specialize (Hp eq_refl).
+        destruct (accept_pend_empty _ _ _ _ Hlg (Hp a) H). auto.
+      - split; [|discriminate]. unfold phase_ok in Hok. rewrite El, orb_false_r in Hok. eapply stale_open_pre; eauto. }
     pose proof (accept_wcount _ _ _ _ H) as Hwc.
-    assert (exists n' ph', rz s' = RActive d true n' ph' /\ (joined ph = true -> joined ph' = true) /\
-                           (joined ph = false -> joined ph' = true -> nworkers s' = 0)) as (n' & ph' & Hrz' & Hj1 & Hj2).
+    assert (exists ph', rz s' = RActive d true n ph' /\ (joined ph = true -> joined ph' = true) /\
+                        (joined ph = false -> joined ph' = true -> nworkers s' = 0) /\ phase_ok ph' = true /\ (late ph = true -> late ph' = true) /\
+                        (late ph = false -> late ph' = true -> a = d /\ pend (getT s' d) = [] /\ joined ph = true))
+      as (ph' & Hrz' & Hj1 & Hj2 & Hok' & Hl1 & Hl2).
     { destruct (Nat.eq_dec a d) as [->|Hne].
-      - destruct (accept_dtor_owner _ _ _ _ _ _ Hrz Hde H) as (ph' & A & B & C). exists n, ph'. auto.
-      - rewrite (accept_rz_nonowner _ _ _ _ _ _ _ _ Hrz Hne H). exists n, ph. rewrite Hrz. split; [reflexivity|]. split; [tauto|]. intros A B. rewrite A in B. discriminate. }
+      - destruct (accept_dtor_owner _ _ _ _ _ _ Hrz Hde H) as (ph' & A & B & C & D & E & F). exists ph'. repeat split; auto; apply F; assumption.
+      - rewrite (accept_rz_nonowner _ _ _ _ _ _ _ _ Hrz Hne H). exists ph. rewrite Hrz. repeat split; auto; try tauto.
+        all: intros A B; rewrite A in B; discriminate. }
+    assert (late_state s' = late ph') as Hls' by (unfold late_state; rewrite Hrz'; reflexivity).
     constructor.
     - eauto.
-    - intros u. destruct (Nat.eq_dec a u) as [<-|Hne]; [exact Hp'|]. rewrite (accept_frame _ _ _ _ _ H Hne). apply Hp.
+    - rewrite Hls'. intros Hl' u. destruct (late ph) eqn:El.
+      + rewrite Hls in Hp. specialize (Hp eq_refl). destruct (Nat.eq_dec a u) as [<-|Hne]; [auto|]. rewrite (accept_frame _ _ _ _ _ H Hne). apply Hp.
+      + destruct (Hl2 eq_refl Hl') as (-> & Hpd & Hjn). destruct (Nat.eq_dec d u) as [<-|Hne]; [exact Hpd|].
+        rewrite (accept_frame _ _ _ _ _ H Hne).
+        destruct (is_worker_cases (getT s1 u)) as [[Hwk _] | [Hz _]].
+        * destruct (K2 u (not_eq_sym Hne) Hwk) as [[_ Hjb] | [_ Hids]]; [|apply th_ids_nil_pend; exact Hids].
+          rewrite Hrz in Hjb. cbn [joinedb] in Hjb. rewrite Hjn in Hjb. discriminate.
+        * rewrite (K1 u (not_eq_sym Hne) Hz). apply Qp.
     - eapply cov_step; eauto.
     - lia.
     - intros u Hu Hwk. rewrite <- (K1 u Hu Hwk). apply (accept_frame _ _ _ _ _ H). intros ->. destruct Ha as [?|Ha]; [contradiction | rewrite Ha in Hwk; discriminate].
@@ -327,11 +367,20 @@ Section C01.
         destruct Hr as [i Hr]. unfold is_worker in Hzu. rewrite Hr in Hzu. discriminate.
   Qed.
 
-  Lemma J_accepts s1 d tr : forall s s', J s1 d s -> Forall (contract_event s1 d) tr -> accepts s tr = Some s' -> J s1 d s'.
+  Lemma J_accepts s1 d tr : (forall u, pend (getT s1 u) = []) -> forall s s', J s1 d s -> Forall (contract_event s1 d) tr ->
+    late_gen rcap scap share s tr = false -> accepts s tr = Some s' -> J s1 d s'.
   Proof.
-    induction tr as [|[a e] r IH]; cbn [PoolModel.accepts]; intros s s' Hj Hf H; [injection H as <-; exact Hj|].
+    intros Qp. induction tr as [|[a e] r IH]; cbn [PoolModel.accepts PoolModel.late_gen]; intros s s' Hj Hf Hl H; [injection H as <-; exact Hj|].
     destruct (accept s a e) as [s2|] eqn:E; [|discriminate]. inversion Hf; subst.
-    eapply IH; [| eassumption | exact H]. eapply J_step; eauto.
+    apply orb_false_iff in Hl. destruct Hl as [Hl1 Hl2].
+    eapply IH; [| eassumption | exact Hl2 | exact H]. eapply J_step; eauto.
+  Qed.
+
+  Lemma late_gen_app tr1 : forall tr2 s s1, accepts s tr1 = Some s1 ->
+    late_gen rcap scap share s (tr1 ++ tr2) = late_gen rcap scap share s tr1 || late_gen rcap scap share s1 tr2.
+  Proof.
+    induction tr1 as [|[a e] r IH]; cbn [app PoolModel.accepts PoolModel.late_gen]; intros tr2 s s1 H; [injection H as ->; reflexivity|].
+    destruct (accept s a e) as [s2|]; [|discriminate]. rewrite (IH _ _ _ H). rewrite orb_assoc. reflexivity.
   Qed.
 
   Lemma accepts_app tr1 : forall tr2 s s', accepts s (tr1 ++ tr2) = Some s' -> exists s1, accepts s tr1 = Some s1 /\ accepts s1 tr2 = Some s'.
@@ -350,13 +399,18 @@ Section C01.
     accepts (init share n0) tr1 = Some s1 -> quiet s1 d ->
     Forall (contract_event s1 d) tr3 ->
     accepts s1 ((d, EDtorBegin) :: tr3 ++ [(d, EDtorEnd)]) = Some s ->
+    late_gen rcap scap share (init share n0) (tr1 ++ (d, EDtorBegin) :: tr3 ++ [(d, EDtorEnd)]) = false ->
     rz s = RDead /\ central s = [] /\ (forall j, lget [] j (rings s) = []) /\ (forall j, lget [] j (steals s) = []) /\
     (forall u, th_ids (getT s u) = []) /\
     forall t, In t (gens s) -> cnt t (done s) = 1.
   Proof.
-    intros H1 [Qp Qi] Hf H.
+    intros H1 [Qp Qi] Hf H Hlate.
+    rewrite (late_gen_app _ _ _ _ H1) in Hlate. apply orb_false_iff in Hlate. destruct Hlate as [_ Hlate].
+    cbn [PoolModel.late_gen] in Hlate.
     cbn [PoolModel.accepts] in H. destruct (accept s1 d EDtorBegin) as [sa|] eqn:Ea; [|discriminate].
+    apply orb_false_iff in Hlate. destruct Hlate as [_ Hlate].
     destruct (accepts_app _ _ _ _ H) as (sb & Hb & He). cbn [PoolModel.accepts] in He.
+    rewrite (late_gen_app _ _ _ _ Hb) in Hlate. apply orb_false_iff in Hlate. destruct Hlate as [Hlate _].
     destruct (accept sb d EDtorEnd) as [s'|] eqn:Ee; [|discriminate]. injection He as ->.
     (* J after the destructor's first event *)
     assert (J s1 d sa) as Ja.
@@ -365,15 +419,15 @@ Section C01.
         all: cbn [is_rz_event] in Ea; inv_guards Ea; subst sa; simp_proj; repeat split; reflexivity. }
       assert (forall u, getT sa u = getT s1 u) as Hg by (intros u; unfold getT; rewrite Hth; reflexivity).
       constructor.
-      - eauto.
-      - intros u. rewrite Hg. apply Qp.
+      - exists 0, PhBegin. split; [exact Hrz | reflexivity].
+      - unfold late_state. rewrite Hrz. discriminate.
       - unfold CovP, cov_rings, cov_steals, cov_central, aux, PoolModel.ring_open, PoolModel.steal_open, central_open. rewrite Hrz. cbn.
         repeat split; intros; apply orb_true_r.
       - pose proof (wcount_inv _ _ _ H1). pose proof (accept_wcount _ _ _ _ Ea). lia.
       - intros u _ _. apply Hg.
       - intros u Hu Hwk. left. rewrite Hg, Hrz. split; [|reflexivity].
         destruct (is_worker_cases (getT s1 u)) as [[_ Hr] | [Hz _]]; [exact Hr | rewrite Hz in Hwk; discriminate]. }
-    pose proof (J_accepts _ _ _ _ _ Ja Hf Hb) as [[n [ph Hrz]] Hp Hc Hw K1 K2].
+    pose proof (J_accepts _ _ _ Qp _ _ Ja Hf Hlate Hb) as [[n [ph [Hrz _]]] Hp Hc Hw K1 K2].
     (* the last event *)
     assert (rz s = RDead /\ ph = PhDrained /\ th_ids (getT s d) = [] /\ forall u, u <> d -> getT s u = getT sb u) as (Hdead & -> & Hd & Hfr).
     { unfold accept, accept_rz in Ee. rewrite Hrz in Ee. destruct (trole (getT sb d)); try discriminate Ee.
